@@ -11,6 +11,8 @@ Structural clauses decided:
  R6 an empty cipher / extension list hashes to `000000000000`; the emptiness test looks at the very string that is hashed
  R7 hash12 = first 12 lowercase hex characters of SHA-256; JA4_a field order, SNI flag polarity, `_` separators
  R8 SNI and ALPN are taken from the first entry of their lists
+ R9 no narrowing conversion on the way into the fingerprint (counts of 256+ would wrap before the clamp); narrowing conversions of the
+    TLS crate are proven or reviewed to fit
 """
 import struct
 
